@@ -67,11 +67,20 @@ fi
 export VERIF_TAGS="$TAGS"
 # the gts binary itself (CLI properties C14, C15), built from the same tree
 export VERIF_GTS_BIN="$V/bin/gts.$$"
-cleanup() { rm -f "$BIN" "$VERIF_GTS_BIN" "$V/bin/build.$$.log"; rm -rf "$OVL"; [ -n "$SCR" ] && rm -rf "$SCR"; }
+cleanup() { rm -f "$BIN" "$VERIF_GTS_BIN" "$V/bin/work.$$" "$V/bin/build.$$.log"; rm -rf "$OVL"; [ -n "$SCR" ] && rm -rf "$SCR"; }
 case "${2:-}" in
   C12|C14|C15|C19)
     if ! (cd "$REPO" && go build -o "$VERIF_GTS_BIN" ./cmd/gts) 2> "$V/bin/build.$$.log"; then
       echo "HARNESS-ERROR: build of the gts binary from $REPO failed:" >&2; cat "$V/bin/build.$$.log" >&2; exit 3
+    fi;;
+esac
+# C07: helper instrumented with coverage counters over the gts packages (statement counts as a deterministic measure of work)
+case "${2:-}" in
+  C07)
+    export VERIF_WORK_BIN="$V/bin/work.$$"
+    if ! go build $MODFLAG -cover -covermode=count -coverpkg=verif/cmd/work,github.com/go-gts/gts,github.com/go-gts/gts/seqio -o "$VERIF_WORK_BIN" ./cmd/work 2> "$V/bin/build.$$.log"; then
+      echo "note: the instrumented helper does not build; the statement-count sub-check of C07 is skipped" >&2
+      unset VERIF_WORK_BIN
     fi;;
 esac
 cmd=${1:-}
